@@ -10,7 +10,7 @@ def main():
     pk, short = sys.argv[1], sys.argv[2]
     verbose = '-v' in sys.argv
     t0 = time.time()
-    eng = Engine()
+    eng = Engine(_os.environ.get('VERIF_REPO', '/repo'))
     print('load %.1fs' % (time.time() - t0))
     for e in eng.specs.errors:
         print('SPEC ERROR', e)
